@@ -70,6 +70,9 @@ func (e *Env) instrumentRepoWith(noLocks bool) (string, int, error) {
 
 func concVariant(name, overlay string) Variant {
 	v := Variant{Name: name, Pkg: "./cmd/simconc", Tags: "verif,verifoverlay", Overlay: overlay}
+	if name == "386" {
+		v.Env = []string{"GOARCH=386"}
+	}
 	if strings.HasPrefix(name, "purego") {
 		v.Tags += ",purego"
 	}
@@ -202,6 +205,21 @@ func CheckConc(e *Env) (int, error) {
 			return 2, err
 		}
 	}
+	// the library on a 32-bit platform (no race detector there; the solo-run
+	// oracle, panics and fatal errors remain): a few jobs per round
+	bin386, state386 := "", "skipped: does not build for GOARCH=386"
+	v386 := concVariant("386", overlay)
+	if b, err := e.Build(v386); err == nil {
+		if out, err := exec.Command(b, "-selftest").CombinedOutput(); err == nil {
+			bin386, state386 = b, "ran"
+			bins.plain["386"] = b
+		} else {
+			state386 = "skipped: this machine does not run GOARCH=386 binaries"
+			Logf("GOARCH=386 simconc does not run here (%v: %s): skipped", err, strings.TrimSpace(string(out)))
+		}
+	} else {
+		Logf("the GOARCH=386 build of simconc failed: skipped\n%v", err)
+	}
 	if err := e.RefSelfTest(bins.plain["asm"]); err != nil {
 		return 2, err
 	}
@@ -255,7 +273,7 @@ func CheckConc(e *Env) (int, error) {
 
 	budget := budgetSeconds(e.Tier, 50, 780)
 	const racePer, plainPer = 24, 96
-	nextRace, nextPlain := 0, 0
+	nextRace, nextPlain, next386 := 0, 0, 0
 	start := time.Now()
 	for round := 0; ; round++ {
 		if round >= len(variants) && time.Since(start) > budget {
@@ -276,6 +294,12 @@ func CheckConc(e *Env) (int, error) {
 		for k := 0; k < 16; k++ {
 			jobs = append(jobs, e.concJob(bins.plain[v], v, 1_000_000+nextPlain, plainPer, sites, false, ""))
 			nextPlain += plainPer
+		}
+		if bin386 != "" {
+			for k := 0; k < 2; k++ {
+				jobs = append(jobs, e.concJob(bin386, "386", 3_000_000+next386, plainPer/4, sites, false, ""))
+				next386 += plainPer / 4
+			}
 		}
 		e.RunJobs(jobs)
 		for _, j := range jobs {
@@ -481,6 +505,7 @@ func CheckConc(e *Env) (int, error) {
 		"distinct_history_digests":                        len(a.Digests),
 		"freerun_fallbacks":                               a.FreeRuns,
 		"runs_by_variant":                                 a.Variants,
+		"platform_386":                                    map[string]any{"state": state386, "runs": a.Variants["386"], "what": "conc-world runs executed by a GOARCH=386 build of library and harness (no race detector on that platform: solo-run equivalence, panics, fatal errors, progress)"},
 		"runs_per_hour":                                   int(float64(a.Runs) / time.Since(e.Start).Hours()),
 		"data_race_reports":                               len(races),
 		"stalled_peer_world":                              map[string]any{"state": stallState, "runs": a.ByWorld["stall"], "simulated_clock_ms": a.StallMS, "what": "inside a testing/synctest bubble (go1.26.8) caller A signs with an entropy reader that parks it for 1000 h of simulated time; while it is parked caller B (same or another key) signs with its own reader / signs deterministically / verifies / derives a shared secret / imports a key and must return, within one simulated second, what it returns when run alone. A B that is blocked on a lock held by the parked A is found by a real-time watchdog (10 s)"},
